@@ -1553,6 +1553,9 @@ func op_jmp(cpu *CPU) {
 	case m_Absolute_Indirect_Long:
 		cpu.PC = cpu.nRead16_wrap(0x00, cpu.StepInfo.Addr)
 		cpu.RK = cpu.nRead(0x00, cpu.StepInfo.Addr+2)
+	case m_Absolute_X_Indirect:
+		// both pointer bytes come from the program bank, the offset wraps
+		cpu.PC = cpu.nRead16_wrap(cpu.RK, uint16(cpu.StepInfo.EA))
 	default:
 		cpu.PC = cpu.cmdRead16()
 	}
@@ -1574,6 +1577,9 @@ func op_jsr(cpu *CPU) {
 	switch cpu.StepInfo.Mode {
 	case m_Absolute:
 		cpu.PC = cpu.StepInfo.Addr
+	case m_Absolute_X_Indirect:
+		// both pointer bytes come from the program bank, the offset wraps
+		cpu.PC = cpu.nRead16_wrap(cpu.RK, uint16(cpu.StepInfo.EA))
 	default:
 		cpu.PC = cpu.cmdRead16()
 	}
